@@ -363,6 +363,14 @@ func (m *proxyNeighManager) OnUpdate(protoBufMsg any) {
 			addr = msg.Ipv6Addr
 		}
 		if addr == "" {
+			// The node may have had an address in our family before; make
+			// sure it doesn't stay in the ring.
+			before := m.nodeRing.Len()
+			m.nodeRing.Remove(msg.Hostname)
+			if m.nodeRing.Len() != before {
+				logrus.WithField("hostname", msg.Hostname).Debug("Proxy neighbor manager: node lost its address, removing from ring")
+				m.dirty = true
+			}
 			return
 		}
 		before := m.nodeRing.Len()
